@@ -20,7 +20,15 @@ fn seg_apply(map: &[(f64, f64)], v: f64) -> (f64, f64) {
     if v <= map[0].0 { return (map[0].1 + (v - map[0].0), 1.0); }
     for w in map.windows(2) {
         let ((f0, t0), (f1, t1)) = (w[0], w[1]);
-        if v <= f1 { if f1 == f0 { return (t1, 0.0); } let s = (t1 - t0) / (f1 - f0); return (t0 + (v - f0) * s, s.abs()); }
+        if v <= f1 { if f1 == f0 { return (t1, 0.0); } let s = (t1 - t0) / (f1 - f0);
+            // within one F2Dot14 step of a node the quantised node may put the sample on the other side: the steeper neighbour bounds the error
+            let near = |a: f64| (v - a).abs() <= 2.0 / 16384.0;
+            let neighbour = |k: usize| -> f64 { map.get(k).zip(map.get(k + 1)).map(|(a, b)| if b.0 == a.0 { 0.0 } else { ((b.1 - a.1) / (b.0 - a.0)).abs() }).unwrap_or(1.0) };
+            let k = map.iter().position(|m| *m == (f0, t0)).unwrap_or(0);
+            let mut smax = s.abs();
+            if near(f0) && k > 0 { smax = smax.max(neighbour(k - 1)); }
+            if near(f1) { smax = smax.max(neighbour(k + 1)); }
+            return (t0 + (v - f0) * s, smax); }
     }
     let l = map[map.len() - 1];
     (l.1 + (v - l.0), 1.0)
